@@ -379,7 +379,7 @@ def eventsOf (c : Option Nat) : Nat → List Stmt → List Ev
   | _, [] => []
   | i, s :: rest => stmtEvAt c i s ++ eventsOf c (i + 1) rest
 
-/-! ### round 5: a nil function given to `WithAcceptable` (finding; fixes/C14-withacceptable-nil.patch) -/
+/-! ### round 5: a nil function given to `WithAcceptable` (finding; fixes/not-applied/C14-withacceptable-nil.patch) -/
 
 /-- a verdict function whose evaluation may call a nil function value: `none` = that call (a nil-call panic) -/
 abbrev AccFnP := Option (Option Err → Option Bool)
@@ -396,7 +396,7 @@ def withAcceptablePinned (cur new : AccFnP) : AccFnP :=
     | some false => (match new with | some g => g e | none => none)
     | none => none
 
-/-- with fixes/C14-withacceptable-nil.patch: a nil argument leaves the connection as it is -/
+/-- with fixes/not-applied/C14-withacceptable-nil.patch: a nil argument leaves the connection as it is -/
 def withAcceptableFixed (cur new : AccFnP) : AccFnP :=
   match new with
   | none => cur
